@@ -37,7 +37,7 @@ func (sim *Simulation) onField(target key.TargetID) bool {
 }
 
 func (sim *Simulation) IsAlive(target key.TargetID) bool {
-	return sim.Attr.IsAlive(target)
+	return sim.onField(target) && sim.Attr.IsAlive(target)
 }
 
 func (sim *Simulation) IsCharacter(target key.TargetID) bool {
